@@ -185,10 +185,12 @@ def shard(shard_i, nshards, payload):
                     if judge_fail(res, r, obs, {"P0011"}, case, "rule:P0011:other-config"):
                         res.distinct.add(core.key_of("crosscfg", place))
             # ---- (2) duplicate names
-            named = [d for d in decls if d["k"] in ("enum", "struct", "subrange", "array", "fb", "program", "function", "alias")]
+            named = [d for d in decls if d["k"] in ("enum", "struct", "subrange", "array", "fb", "program", "function", "alias",
+                                                     "string", "config")]
             rng.shuffle(named)
             for d in named[:payload["dups_per_unit"]]:
-                for how in ("same-kind", "other-kind", "same-kind-recased", "other-kind-recased", "identical"):
+                for how in ("same-kind", "other-kind", "same-kind-recased", "other-kind-recased", "identical",
+                            "other-kind-function", "other-kind-program", "other-kind-config", "other-kind-string"):
                     orig_name = d["name"]
                     if how.endswith("-recased"):
                         # identifiers are case-insensitive: a twin spelled in another letter case is the same name
@@ -197,7 +199,18 @@ def shard(shard_i, nshards, payload):
                         recased = True
                     else:
                         recased = False
-                    if how == "identical":
+                    if how.startswith("other-kind-"):
+                        # every pairing of declaration kinds shares the one name space of the library
+                        nm = d["name"]
+                        twin = {"k": "raw", "text": {
+                            "function": "FUNCTION %s : INT VAR_INPUT zz : INT; END_VAR %s := zz; END_FUNCTION" % (nm, nm),
+                            "program": "PROGRAM %s VAR zz : INT; END_VAR zz := 1; END_PROGRAM" % nm,
+                            "config": "PROGRAM dupprog VAR zz : INT; END_VAR zz := 1; END_PROGRAM CONFIGURATION %s RESOURCE dupres "
+                                      "ON PLC PROGRAM dupinst : dupprog; END_RESOURCE END_CONFIGURATION" % nm,
+                            "string": "TYPE %s : STRING[7]; END_TYPE" % nm}[how[len("other-kind-"):]]}
+                        if how[len("other-kind-"):] == kind_class(d["k"]) or (how.endswith("string") and kind_class(d["k"]) == "type"):
+                            continue
+                    elif how == "identical":
                         # the very same declaration text a second time (another file may hold a copy)
                         twin = {"k": "raw", "text": vgen.render_decl(d)}
                     elif how == "same-kind":
@@ -207,10 +220,14 @@ def shard(shard_i, nshards, payload):
                                     " VAR zz : INT; END_VAR zz := 1; END_" + ("FUNCTION_BLOCK" if d["k"] == "fb" else "PROGRAM")}
                         elif d["k"] == "function":
                             twin = {"k": "raw", "text": "FUNCTION %s : INT VAR_INPUT zz : INT; END_VAR %s := zz; END_FUNCTION" % (d["name"], d["name"])}
+                        elif d["k"] == "config":
+                            twin = {"k": "raw", "text": "PROGRAM dupprog VAR zz : INT; END_VAR zz := 1; END_PROGRAM CONFIGURATION %s "
+                                                        "RESOURCE dupres ON PLC PROGRAM dupinst : dupprog; END_RESOURCE "
+                                                        "END_CONFIGURATION" % d["name"]}
                         else:
                             twin = {"k": "raw", "text": "TYPE %s : (dupa, dupb); END_TYPE" % d["name"]}
                     else:
-                        if d["k"] in ("fb", "program", "function"):
+                        if d["k"] in ("fb", "program", "function", "config"):
                             twin = {"k": "raw", "text": "TYPE %s : (dupa, dupb); END_TYPE" % d["name"]}
                         else:
                             twin = {"k": "raw", "text": "FUNCTION_BLOCK %s VAR zz : INT; END_VAR zz := 1; END_FUNCTION_BLOCK" % d["name"]}
@@ -271,8 +288,16 @@ def cli_shard(shard_i, nshards, payload):
             files = [(fn[0], comp), (fn[1], bad[1])]
             if kind != 2:
                 files.append((fn[2], vgen.render_unit(decls, oscat=rng if i % 3 else None)))
-            for n, t in files:
-                open(os.path.join(d, n), "w").write(t)
+            linked = rng.randrange(len(files)) if i % 4 == 1 else None
+            for j_, (n, t) in enumerate(files):
+                if j_ == linked:
+                    # the file lives elsewhere and is linked into the directory
+                    os.makedirs(os.path.join(tmp, "real%d" % i), exist_ok=True)
+                    open(os.path.join(tmp, "real%d" % i, n), "w").write(t)
+                    os.symlink(os.path.join(tmp, "real%d" % i, n), os.path.join(d, n))
+                    res.count("cli-symlinked-file")
+                else:
+                    open(os.path.join(d, n), "w").write(t)
             paths = [os.path.join(d, n) for n, _ in files]
             orders = [paths, list(reversed(paths)), [d]]
             for args in orders:
@@ -296,6 +321,7 @@ def cli_shard(shard_i, nshards, payload):
                 else:
                     res.distinct.add(core.key_of("cli", bad[0], len(args), args is orders[2]))
             shutil.rmtree(d, ignore_errors=True)
+            shutil.rmtree(os.path.join(tmp, "real%d" % i), ignore_errors=True)
     finally:
         shutil.rmtree(tmp, ignore_errors=True)
     return res.to_dict()
